@@ -63,7 +63,7 @@ class GlobalSpy:
 
 
 TABLES = {
-    "Canonical": ["ball", "box_x2", "rotation_molecule", "compop_sched"],
+    "Canonical": ["rotation_molecule", "compop_sched", "ball", "box_x2"],
     "HamiltonianCanonical": ["ham"],
     "Isobaric": ["cell_iso_disp", "cell_shape"],
     "Isotension": ["cell_aniso"],
@@ -165,7 +165,7 @@ def run_one(driver, table, seed, steps, interner):
         nglob = len(GLOBAL_CALLS)
         ndraws = len(spy.log)
         mc.close()
-    return {"seed": str(seed), "used": str(used), "toks": [interner.setdefault(t, len(interner) + 1) for t in toks], "glob": nglob, "draws": ndraws, "global_calls": list(GLOBAL_CALLS[:5])}
+    return {"seed": str(seed), "used": str(used), "raw": list(toks), "toks": [interner.setdefault(t, len(interner) + 1) for t in toks], "glob": nglob, "draws": ndraws, "global_calls": list(GLOBAL_CALLS[:5])}
 
 
 def run(tier: str) -> int:
@@ -208,6 +208,38 @@ def run(tier: str) -> int:
                 rep.count((driver, table, seed), nontrivial=A["draws"] > 0)
                 if len(rep.samples) < 4 and si == 0:
                     rep.sample({"driver": driver, "table": table, "seed": seed, "tokens_A": A["toks"], "tokens_B": B["toks"], "tokens_C": C["toks"], "own_draws": A["draws"], "global_calls": A["glob"]})
+    # ---- the other process-wide source of "randomness": the interpreter's string-hash salt.  The same seed in a FRESH
+    # interpreter with another PYTHONHASHSEED (and other global generator states) must give the same tokens. ----------
+    import subprocess
+    import sys
+
+    multi = [("Canonical", "compop_sched"), ("Canonical", "rotation_molecule"), ("Isobaric", "cell_iso_disp"), ("GrandCanonical", "exch_disp")]
+    salts = ["1", "2"] if tier == "quick" else ["1", "2", "3", "77", "random"]
+    jobs = []
+    for driver, table in multi:
+        for seed in ([0] if tier == "quick" else [0, 42, 2**32 + 7]):
+            ref = next((e["A"] for e in exps if e["driver"] == driver and e["table"] == table and e["A"]["seed"] == str(seed)), None)
+            if ref is None:
+                try:
+                    ref = run_one(driver, table, seed, steps, interner)
+                except Exception:  # noqa: BLE001
+                    continue
+            for salt in salts:
+                env = dict(os.environ, PYTHONHASHSEED=salt)
+                pr = subprocess.Popen([sys.executable, os.path.abspath(__file__), driver, table, str(seed), str(steps), salt], env=env, stdout=subprocess.PIPE, stderr=subprocess.PIPE, text=True)
+                jobs.append((driver, table, seed, salt, ref, pr))
+    for driver, table, seed, salt, ref, pr in jobs:
+        out, err = pr.communicate(timeout=600)
+        rep.count((driver, table, seed, "salt", salt), nontrivial=True)
+        try:
+            raw = json.loads(out.strip().splitlines()[-1])["raw"]
+        except Exception:  # noqa: BLE001
+            rep.error(f"hash-salt subprocess failed for {driver}/{table}: {err[-400:]}")
+            continue
+        if raw != ref["raw"]:
+            k = next((i for i, (a, b) in enumerate(zip(raw, ref["raw"])) if a != b), min(len(raw), len(ref["raw"])))
+            rep.violation(f"same-seed-differs:other-interpreter-hash-salt:{driver}", f"{driver}/{table} seed {seed}: a fresh interpreter with PYTHONHASHSEED={salt} gives a different trajectory from step {k} on (same seed, same atoms, same configuration)", {"driver": driver, "table": table, "seed": seed, "salt": salt})
+    rep.add(hash_salt_runs=len(jobs))
     tmp = tempfile.mkdtemp(prefix="c06_")
     try:
         tf = os.path.join(tmp, "exps.json")
@@ -232,3 +264,18 @@ def run(tier: str) -> int:
             rule="experiment = (driver in Canonical/HamiltonianCanonical/Isobaric/Isotension/GrandCanonical/ForceBias/AdaptiveForceBias, move table, seed in {0, 1, 42, 2^32-1, 2^32+7, 2^63+5, random, ...}): run A, perturb the global generators, run B (same seed), run C (seed+1 or seed+2^32); one token per step from positions, cell, numbers, momenta, move history, plus the log bytes; every entry point of numpy.random / random is wrapped; TLC judges A = B, C != A, zero global events, seed honoured, own draws > 0; non-trivial = the run drew from its own generator")
     rep.assumptions += ["a use of a global generator is detected at the entry points of the numpy.random and random modules (module-level functions, default_rng() without a seed)"]
     return rep.finish()
+
+
+if __name__ == "__main__":
+    # one run in this (fresh) interpreter: driver table seed steps salt -> raw tokens
+    import sys
+
+    warnings.simplefilter("ignore")
+    sys.path.insert(0, os.path.dirname(os.path.abspath(__file__)))
+    import quansino.mc  # noqa: F401
+
+    d, t, sd, st, salt = sys.argv[1:6]
+    np.random.seed(abs(hash(salt)) % 2**31)
+    random.seed(salt)
+    r_ = run_one(d, t, int(sd), int(st), {})
+    print(json.dumps({"raw": r_["raw"]}))
